@@ -167,6 +167,18 @@ func c01ShareStore(A, B geom.Polygonal) (geom.Polygonal, geom.Polygonal) {
 		store = append(store, (*p)...)
 		*p = geom.Polygon(store[off:len(store):cap(store)])
 	}
+	// likewise the vertices: the rings of all these polygons lie back to back in one array of points, each ring with the
+	// rest of the array as spare capacity
+	np := 0
+	for _, r := range store {
+		np += len(r)
+	}
+	pts := make([]geom.Point, 0, np)
+	for i, r := range store {
+		off := len(pts)
+		pts = append(pts, r...)
+		store[i] = geom.Path(pts[off:len(pts):cap(pts)])
+	}
 	if ga == nil {
 		ga = *ma[0]
 	}
